@@ -340,8 +340,11 @@ class Flow(object):
                                                            avoid=[d_node])
                 if loc in reach_from_d:
                     locn = self.cfg.nodes[loc]
+                    # (values are taken on entry to u_node: a definition made
+                    # by u_node itself only matters if u_node can be reached
+                    # again without re-establishing the fact)
                     if u_node.id in self.cfg.reachable_from(
-                            locn, avoid=[d_node]) or locn is u_node:
+                            locn, avoid=[d_node]):
                         return False
         return True
 
